@@ -103,7 +103,10 @@ DoEditRT == "editRoundTrip" \in Ops /\ \E o \in 1..3 :
              IN Call("editRoundTrip", [o |-> o], [r2 EXCEPT !.post = recv])
 EntriesI == { Iv(s, e, l) : s \in 0..(N + 1), e \in 0..(N + 1), l \in {"x"} }
 EntriesP == { Pt(t, l) : t \in 0..(N + 1), l \in {"x"} }
-DoInsert == "insertEntry" \in Ops /\ \E x \in (IF recv.kind = "I" THEN {y \in EntriesI : y.s <= y.e} ELSE EntriesP), cm \in CollModes, rm \in {"silence", "warning"} :
+\* candidates: every fresh entry on the grid, and every entry the tier already holds (the same entry inserted twice);
+\* reporting modes: the two documented ones and an invalid value (rejected before anything changes)
+DoInsert == "insertEntry" \in Ops /\ \E x \in (IF recv.kind = "I" THEN {y \in EntriesI : y.s <= y.e} ELSE EntriesP) \cup SeqToSet(recv.ents),
+                                          cm \in CollModes, rm \in {"silence", "warning", "bogus"} :
              Call("insertEntry", [x |-> x, cmode |-> cm, rmode |-> rm], InsertEntry(recv, x, cm, rm))
 DoDelete == "deleteEntry" \in Ops /\
             \/ \E i \in Idx(recv.ents) : Call("deleteEntry", [x |-> recv.ents[i]], DeleteEntry(recv, recv.ents[i]))
